@@ -146,3 +146,21 @@ for _nm, _chs, _exc in (('two-channels', {'list': [DCH2, DCH2]}, None), ('a-non-
         raises=({_exc: 'True'} if _exc else {}), may_raise=['AnyException'],
         exc_ensures=([('rejected-before-any-set-was-created-or-registered', 'not registry_touched')] if _exc else []),
         ensures=[])
+
+# ---------------------------------------------------------------------------------------------- DLISFile.write wiring (C01)
+from contracts.c_writer import SUL_FIELDS, DW_FIELDS, SUL_TOO_LONG
+import contracts.c_writer as _cw
+_cw.CONTRACTS['DLISWriter.__init__']['modifies'] = ['self.' + f for f in DW_FIELDS]
+SULM = {'cls': 'StorageUnitLabel', 'fields': SUL_FIELDS}
+CONTRACTS['DLISFile.write'] = dict(
+    props=['C01', 'C10', 'C15'],
+    self_fields={'_sul': SULM, 'logical_files': {'list': [{'cls': 'LogicalFile', 'fields': {}}]}},
+    params={'dlis_file_name': 'opq:path', 'input_chunk_size': 'int?', 'output_chunk_size': 'int?', 'data': 'none', 'from_idx': 'int', 'to_idx': 'int?'},
+    returns='none', ghost={'disk': ('bytes', 'fresh_bytes()'), 'stream': ('bytes', "b''"), 'nvr': ('int', '0')},
+    stubs={'check_objects': dict(returns='none', raises=True), 'generate_logical_records': dict(returns='seq[ref]', raises=True)},
+    may_raise=['ValueError', 'UnicodeEncodeError', 'RuntimeError', 'TypeError'],
+    call_requires={
+        'DLISWriter.__init__': [('the-writers-limit-is-the-maximum-record-length-declared-in-the-label', 'visible_record_length == self._sul.max_record_length')],
+        'DLISWriter.write_storage_unit_label': [('the-label-written-is-the-files-label', 'sul is self._sul')]},
+    ensures=[('file-is-label-then-visible-records-prior-content-replaced',
+              'disk == sul_bytes(str(self._sul.sequence_number), str(self._sul.max_record_length), self._sul.set_identifier) + stream')])
